@@ -88,6 +88,21 @@ META["C10"] = {
   "design_ref": "DESIGN.md §3 C10, §4",
   "note": "Level `other`: file I/O is an assumed external contract; one open known finding.",
   "technique": TECH + "; static AST obligations for the weight-read sites"}
+META["C18"] = {
+  "text": "split, split_with_index and merge are under contract (numpy permutation / fancy indexing / stacking by assumed contracts): sizes, per-row provenance through a seed-determined bijection, own labels and indices, agreement of the two split functions, concatenation order of merge - all discharged. The conversion / loading / parsing chain is file I/O through struct, numpy text and json, i.e. external contracts: decided by a bounded run-time contract that writes OPF binaries, converts them with the real functions, loads and parses all three formats and compares identifiers, exact float32 features and shifted labels, and checks the rejection of non-sequential labels.",
+  "design_ref": "DESIGN.md §3 C18",
+  "note": "Level `other`: I/O half bounded.",
+  "technique": TECH}
+META["C19"] = {
+  "text": "Bounded run-time contract load(save(m)) = m: full node / subgraph / model state, the bound metric and predictions on a probe batch coincide, the original is unchanged - 4 model kinds x metrics x {on-the-fly, pre-computed}; plus static obligations on the bodies of save / load and the absence of pickling hooks. Contracts cannot say more: the content of the property is pickle's behaviour.",
+  "design_ref": "DESIGN.md §3 C19",
+  "note": "Level `exploration` (bounded), as announced in DESIGN: the deductive part is only the frame of save/load.",
+  "technique": "bounded run-time contract (deal/icontract style) on the real save/load; static frame obligations"}
+META["C11"] = {
+  "text": "Rescaling half: order-only discipline of every function between the weights and the results (AST obligations), monotonicity of the five closed forms in the sum of squares (z3), and the C06 equalities of those five identifiers; the step from the discipline to equivariance is a pencil meta-argument. Permutation half: bounded relational run-time contract on tie-free data.",
+  "design_ref": "DESIGN.md §3 C11",
+  "note": "Level `other`: the relational lockstep proof announced in DESIGN was replaced by the order-only discipline check; permutation invariance is bounded (cited lemmas).",
+  "technique": "static order-only (taint) obligations + z3 monotonicity lemmas + bounded relational run-time contract"}
 ALL = ["C%02d" % i for i in range(1, 21)]
 NOT_APPLICABLE = []
 def _na():
